@@ -618,6 +618,53 @@ pub fn c10_case(seed: u64, case: u64, prof: &Profile, dense: bool) -> CaseResult
             }
         }
     }
+    // ---- damage between two refreshes: a pack that was indexed while intact is damaged in place
+    // before a block that names it becomes applicable; that block must never take effect
+    {
+        let blocks: Vec<(&String, &refmodel::RefBlock)> = rs0.blocks.iter().collect();
+        for _ in 0..(if dense { 24 } else { 8 }) {
+            if blocks.is_empty() {
+                break;
+            }
+            let (dstem, dblock) = blocks[r.below(blocks.len())];
+            if dblock.packs.is_empty() {
+                continue;
+            }
+            let pk = format!("{}.pack", dblock.packs[r.below(dblock.packs.len())]);
+            // hold back either the block itself or one of its parents
+            let held: String = if dblock.parents.is_empty() || r.chance(40) { format!("{}.delta", dstem) } else { format!("{}.delta", r.pick(&dblock.parents)) };
+            let mut prefix = files.clone();
+            prefix.remove(&held);
+            let (ad, data) = store::raw_with(&prefix);
+            set_caps((1, 1));
+            let adc = ad.clone();
+            let mut m = match guard(move || Melda::new(adc)) {
+                Outcome::Ok(m) => m,
+                _ => continue,
+            };
+            let orig = files[&pk].clone();
+            if orig.is_empty() {
+                continue;
+            }
+            let mut v = orig.clone();
+            let pos = r.below(v.len());
+            v[pos] ^= 1 << r.below(8);
+            data.lock().unwrap().insert(pk.clone(), v);
+            data.lock().unwrap().insert(held.clone(), files[&held].clone());
+            res.count("c10_damage_between_refreshes", 1);
+            match guard(|| m.refresh()) {
+                Outcome::Ok(()) => {
+                    let id = melda::melda::DeltaId::from(dstem).ok();
+                    let applied = id.and_then(|id| m.get_delta(&id).ok().flatten()).map(|d| d.verif_status() == "applied").unwrap_or(false);
+                    if applied {
+                        res.viol("C10", "block-applied-although-its-pack-is-damaged", format!("pack {} damaged at byte {} after it was indexed; {} delivered; block {} applied", pk, pos, held, dstem));
+                    }
+                }
+                Outcome::Err(_) => res.count("c10_reported_error", 1),
+                Outcome::Panic(p) => res.viol("C10", "panic-on-damaged-storage", format!("refresh after in-place damage of {}: {}", pk, p)),
+            }
+        }
+    }
     let _ = read_doc;
     res.features.insert("items".into(), keys.len() as u64);
     res.features.insert("damages_to_depended_on_items".into(), depended_on);
